@@ -35,10 +35,13 @@ type Fld struct {
 	Name  string `json:"name"`
 	Alias string `json:"alias,omitempty"`
 	Body  string `json:"body,omitempty"` // api.body annotation (changes the alias only at the root of a request / response, under ApiBodyFastPath)
-	Req   int    `json:"req,omitempty"`
-	T     *Ty    `json:"t"`
-	Text  string `json:"text"` // type as written
-	Def   *Def   `json:"def,omitempty"`
+	// RootBase: a base.Base / base.BaseResp field of a struct that only ever is the root of a request / response:
+	// under EnableThriftBase its requires bit is cleared (the base travels through the context), everything else stays as declared
+	RootBase bool   `json:"root_base,omitempty"`
+	Req      int    `json:"req,omitempty"`
+	T        *Ty    `json:"t"`
+	Text     string `json:"text"` // type as written
+	Def      *Def   `json:"def,omitempty"`
 }
 
 type Str struct {
@@ -437,7 +440,22 @@ func GenModel(t *rapid.T) *Model {
 		texpr{"inc.Items", &Ty{K: tm.LIST, Elem: st("inc.Item")}, false}, texpr{"M", &Ty{K: tm.MAP, Key: &Ty{K: tm.STRING}, Elem: &Ty{K: tm.I64}}, false},
 		texpr{"LocalU", st("main.LocalU"), false}, texpr{"Wide", st("main.Wide"), false}, texpr{"inc.Sub", st("inc.Sub"), false}, texpr{"Sub", st("main.Sub"), false})
 	var mb strings.Builder
-	mb.WriteString("namespace go main\ninclude \"inc.thrift\"\n\nenum Color { BLUE = 1, BLACK = 7 }\nenum Kind { K0 = 0, K9 = 9 }\n\ntypedef inc.Id MyId\ntypedef inc.Blob MyBlob\ntypedef inc.Item XItem\ntypedef XItem XItem2\ntypedef map<string, inc.Id> M\n\nconst i64 C_INT = 99\nconst string C_STR = \"main-greeting\"\nconst i64 C_LOCAL = C_INT\n\n")
+	// base.thrift: the request / response base structs of the framework
+	m.Files["base.thrift"] = "namespace go base\n\nstruct TrafficEnv {\n  1: bool Open = false,\n  2: string Env = \"\",\n}\n\nstruct Base {\n  1: string LogID = \"\",\n  2: string Caller = \"\",\n  3: string Addr = \"\",\n  4: string Client = \"\",\n  5: optional TrafficEnv TrafficEnv,\n  6: optional map<string, string> Extra,\n}\n\nstruct BaseResp {\n  1: string StatusMessage = \"\",\n  2: i32 StatusCode = 0,\n  3: optional map<string, string> Extra,\n}\n"
+	{
+		sdef := func(s string) *Def { return &Def{Kind: "string", S: s} }
+		strT, mapT := &Ty{K: tm.STRING}, &Ty{K: tm.MAP, Key: &Ty{K: tm.STRING}, Elem: &Ty{K: tm.STRING}}
+		m.Structs["base.TrafficEnv"] = &Str{Full: "base.TrafficEnv", Kind: "struct", Fields: []Fld{
+			{ID: 1, Name: "Open", T: &Ty{K: tm.BOOL}, Text: "bool", Def: &Def{Kind: "bool"}}, {ID: 2, Name: "Env", T: strT, Text: "string", Def: sdef("")}}}
+		m.Structs["base.Base"] = &Str{Full: "base.Base", Kind: "struct", Fields: []Fld{
+			{ID: 1, Name: "LogID", T: strT, Text: "string", Def: sdef("")}, {ID: 2, Name: "Caller", T: strT, Text: "string", Def: sdef("")},
+			{ID: 3, Name: "Addr", T: strT, Text: "string", Def: sdef("")}, {ID: 4, Name: "Client", T: strT, Text: "string", Def: sdef("")},
+			{ID: 5, Name: "TrafficEnv", Req: tm.ReqOptional, T: st("base.TrafficEnv"), Text: "TrafficEnv"}, {ID: 6, Name: "Extra", Req: tm.ReqOptional, T: mapT, Text: "map<string, string>"}}}
+		m.Structs["base.BaseResp"] = &Str{Full: "base.BaseResp", Kind: "struct", Fields: []Fld{
+			{ID: 1, Name: "StatusMessage", T: strT, Text: "string", Def: sdef("")}, {ID: 2, Name: "StatusCode", T: &Ty{K: tm.I32}, Text: "i32", Def: &Def{Kind: "int"}},
+			{ID: 3, Name: "Extra", Req: tm.ReqOptional, T: mapT, Text: "map<string, string>"}}}
+	}
+	mb.WriteString("namespace go main\ninclude \"inc.thrift\"\ninclude \"base.thrift\"\n\nenum Color { BLUE = 1, BLACK = 7 }\nenum Kind { K0 = 0, K9 = 9 }\n\ntypedef inc.Id MyId\ntypedef inc.Blob MyBlob\ntypedef inc.Item XItem\ntypedef XItem XItem2\ntypedef map<string, inc.Id> M\n\nconst i64 C_INT = 99\nconst string C_STR = \"main-greeting\"\nconst i64 C_LOCAL = C_INT\n\n")
 	addStruct(mc, &mb, "struct", "Sub", rapid.IntRange(0, 3).Draw(t, "nMainSub"), 0, mainEnums)
 	addStruct(mc, &mb, "struct", "Item", rapid.IntRange(1, 5).Draw(t, "nMainItem"), 0, mainEnums)
 	addStruct(mc, &mb, "struct", "A", rapid.IntRange(1, 7).Draw(t, "nA"), 0, mainEnums)
@@ -477,6 +495,16 @@ func GenModel(t *rapid.T) *Model {
 		renderFields(&mb, s.Fields)
 		mb.WriteString("}\n\n")
 	}
+	// BReq / BResp only ever are the root of a request / response and carry the framework's base structs
+	for _, x := range []struct{ name, ty, fld string }{{"BReq", "base.Base", "Base"}, {"BResp", "base.BaseResp", "BaseResp"}} {
+		s := &Str{Full: "main." + x.name, Kind: "struct", Fields: []Fld{
+			{ID: 1, Name: "msg", T: &Ty{K: tm.STRING}, Text: "string"},
+			{ID: 255, Name: x.fld, Req: rapid.IntRange(0, 2).Draw(t, "baseReq"), T: st(x.ty), Text: x.ty, RootBase: true}}}
+		m.Structs[s.Full] = s
+		fmt.Fprintf(&mb, "struct %s {\n", x.name)
+		renderFields(&mb, s.Fields)
+		mb.WriteString("}\n\n")
+	}
 	mainStructs := []texpr{{"A", st("main.A"), false}, {"B", st("main.B"), false}, {"Item", st("main.Item"), false}, {"inc.Item", st("inc.Item"), false}, {"XItem", st("inc.Item"), false},
 		{"Wide", st("main.Wide"), false}, {"inc.Node", st("inc.Node"), false}}
 	mainErrs := []texpr{{"LocalErr", st("main.LocalErr"), false}, {"inc.Err", st("inc.Err"), false}}
@@ -496,6 +524,7 @@ func GenModel(t *rapid.T) *Model {
 		if i == 0 {
 			le := &Ty{K: tm.LIST, Elem: st("main.Elem")}
 			s.Fns = append(s.Fns, Fn{Name: "elems", ArgID: 1, ArgName: "req", Arg: le, ArgText: "list<Elem>", Ret: le, RetText: "list<Elem>"})
+			s.Fns = append(s.Fns, Fn{Name: "withbase", ArgID: 1, ArgName: "req", Arg: st("main.BReq"), ArgText: "BReq", Ret: st("main.BResp"), RetText: "BResp"})
 		}
 		renderSvc(&mb, s)
 		m.Svcs = append(m.Svcs, s)
